@@ -95,9 +95,20 @@ where
             // before we can do anything else.
             if buffered_req.is_some() && server.is_some() {
                 let si = &mut server.as_mut().as_pin_mut().unwrap().0;
-                // Unwrapping is safe as the underlying sink is guaranteed not to error
-                ready!(si.poll_ready_unpin(cx)).unwrap();
-                si.start_send_unpin(buffered_req.take().unwrap()).unwrap();
+
+                match ready!(si.poll_ready_unpin(cx)) {
+                    Ok(()) => {
+                        // A request that the replier's sink refuses (e.g. one that exceeds the
+                        // frame limit once tagged) is dropped; the replier stays bound.
+                        if let Err(e) = si.start_send_unpin(buffered_req.take().unwrap()) {
+                            error!("Failed to send request to replier: {e:?}");
+                        }
+                    }
+                    Err(e) => {
+                        error!("Replier sink failed, unbinding replier: {e:?}");
+                        *server = None;
+                    }
+                }
             }
 
             // If we've got an error buffered already, we need to write it to the client
@@ -190,7 +201,11 @@ where
                     // Server has finished
                     Poll::Ready(None) => {
                         let si = &mut server.as_mut().as_pin_mut().unwrap().0;
-                        ready!(si.poll_flush_unpin(cx)).unwrap();
+
+                        if let Err(e) = ready!(si.poll_flush_unpin(cx)) {
+                            warn!("Could not flush replier sink: {e:?}");
+                        }
+
                         ready!(sink.as_mut().poll_flush(cx)).unwrap();
                         *server = None;
                     }
@@ -244,7 +259,11 @@ where
 
                     if server.is_some() {
                         let si = &mut server.as_mut().as_pin_mut().unwrap().0;
-                        ready!(si.poll_flush_unpin(cx)).unwrap();
+
+                        if let Err(e) = ready!(si.poll_flush_unpin(cx)) {
+                            error!("Replier sink failed, unbinding replier: {e:?}");
+                            *server = None;
+                        }
                     }
 
                     // No requestor streams: nothing to wait for on that side
@@ -262,7 +281,11 @@ where
 
                 if server.is_some() {
                     let si = &mut server.as_mut().as_pin_mut().unwrap().0;
-                    ready!(si.poll_flush_unpin(cx)).unwrap();
+
+                    if let Err(e) = ready!(si.poll_flush_unpin(cx)) {
+                        error!("Replier sink failed, unbinding replier: {e:?}");
+                        *server = None;
+                    }
                 }
 
                 return Poll::Pending;
